@@ -1,0 +1,156 @@
+//go:build verif
+
+// Contracts for package engine, checked by /verif/govc. Comment-only (see ast/zz_contracts_verif.go for the
+// ghost vocabulary of a run).
+
+package engine
+
+// ---------------------------------------------------------------------------------------------------------
+// T-USER: listener callbacks. Each callback appends one record to the ghost event log and touches nothing else.
+// ---------------------------------------------------------------------------------------------------------
+//@ extern func (l GruleEngineListener) BeginCycle(ctx, cycle) ()
+//@   nopanic
+//@   ghost_exit $evL = store($evL, $evN, l)
+//@   ghost_exit $evKind = store($evKind, $evN, 1)
+//@   ghost_exit $evCycle = store($evCycle, $evN, cycle)
+//@   ghost_exit $evN = $evN + 1
+//@ extern func (l GruleEngineListener) EvaluateRuleEntry(ctx, cycle, entry, candidate) ()
+//@   nopanic
+//@   ghost_exit $evL = store($evL, $evN, l)
+//@   ghost_exit $evKind = store($evKind, $evN, 2)
+//@   ghost_exit $evCycle = store($evCycle, $evN, cycle)
+//@   ghost_exit $evEntry = store($evEntry, $evN, entry)
+//@   ghost_exit $evCand = store($evCand, $evN, candidate)
+//@   ghost_exit $evN = $evN + 1
+//@ extern func (l GruleEngineListener) ExecuteRuleEntry(ctx, cycle, entry) ()
+//@   nopanic
+//@   ghost_exit $evL = store($evL, $evN, l)
+//@   ghost_exit $evKind = store($evKind, $evN, 3)
+//@   ghost_exit $evCycle = store($evCycle, $evN, cycle)
+//@   ghost_exit $evEntry = store($evEntry, $evN, entry)
+//@   ghost_exit $evN = $evN + 1
+
+//@ modset evlog = $evN, $evL, $evKind, $evCycle, $evEntry, $evCand
+
+//@ macro func wfEngine(g *GruleEngine) bool { return g != nil && (forall k int :: 0 <= k && k < len(g.Listeners) ==> g.Listeners[k] != nil) }
+// every registered listener receives exactly this event once, in registration order; nothing when none is registered
+//@ macro func delivered(g *GruleEngine, n0 int, kind int, cycle int) bool { return $evN == n0 + len(g.Listeners)
+//@      && (forall k int :: 0 <= k && k < len(g.Listeners) ==> $evL[n0+k] == g.Listeners[k] && $evKind[n0+k] == kind && $evCycle[n0+k] == cycle) }
+//@ macro func logKept(n0 int) bool { return forall j int :: 0 <= j && j < n0 ==> $evL[j] == old($evL[j]) && $evKind[j] == old($evKind[j]) && $evCycle[j] == old($evCycle[j]) && $evEntry[j] == old($evEntry[j]) && $evCand[j] == old($evCand[j]) }
+
+// The engine-level events are DEFINED at these three boundaries (ghost_exit), and their preconditions are the
+// position-specific assertions of C03 / C06 / C01: they are checked at the engine's call sites.
+//@ func (g *GruleEngine) notifyBeginCycle(ctx, cycle) ()
+//@   serves C06
+//@   requires wfEngine(g)
+//@   requires cycle == $runBegin + 1
+//@   nopanic
+//@   modifies @evlog
+//@   ensures delivered(g, old($evN), 1, cycle) && logKept(old($evN))
+//@   ghost_exit $runBegin = $runBegin + 1
+//@   ghost_exit $stamp = $stamp + 1
+//@   ghost_exit $sinceNilCheck = $sinceNilCheck + 1
+//@   ghost_exit $sinceExec = $sinceExec + 1
+//@   invariant@1 $evN == old($evN) + $i && logKept(old($evN))
+//@   invariant@1 forall k int :: 0 <= k && k < $i ==> $evL[old($evN)+k] == g.Listeners[k] && $evKind[old($evN)+k] == 1 && $evCycle[old($evN)+k] == cycle
+
+// a rule's evaluation is reported once per cycle, with the candidate status its evaluation really had
+//@ func (g *GruleEngine) notifyEvaluateRuleEntry(ctx, cycle, entry, candidate) ()
+//@   serves C06
+//@   requires wfEngine(g)
+//@   requires cycle == $runBegin
+//@   requires $evalStamp[entry] == $stamp && $evalCnt[entry] == 1 && $evalCand[entry] == candidate
+//@   requires $notifStamp[entry] != $stamp
+//@   nopanic
+//@   modifies @evlog
+//@   ensures delivered(g, old($evN), 2, cycle) && logKept(old($evN))
+//@   ensures forall k int :: 0 <= k && k < len(g.Listeners) ==> $evEntry[old($evN)+k] == entry && $evCand[old($evN)+k] == candidate
+//@   ghost_exit $notifStamp = store($notifStamp, entry, $stamp)
+//@   ghost_exit $sinceNilCheck = $sinceNilCheck + 1
+//@   ghost_exit $sinceExec = $sinceExec + 1
+//@   invariant@1 $evN == old($evN) + $i && logKept(old($evN))
+//@   invariant@1 forall k int :: 0 <= k && k < $i ==> $evL[old($evN)+k] == g.Listeners[k] && $evKind[old($evN)+k] == 2 && $evCycle[old($evN)+k] == cycle && $evEntry[old($evN)+k] == entry && $evCand[old($evN)+k] == candidate
+
+// at most one execution per cycle, of an active rule reported as candidate in this very cycle, whose salience is
+// maximal among all rules evaluated true in this cycle
+//@ func (g *GruleEngine) notifyExecuteRuleEntry(ctx, cycle, entry) ()
+//@   serves C06 C03 C01
+//@   requires wfEngine(g)
+//@   requires cycle == $runBegin
+//@   requires entry != nil && $evalStamp[entry] == $stamp && $evalCand[entry] && $notifStamp[entry] == $stamp
+//@   requires !entry.Retracted && !entry.Deleted
+//@   requires $execNotifStamp != $stamp
+//@   requires forall re *ast.RuleEntry :: $evalStamp[re] == $stamp && $evalCand[re] ==> re.Salience <= entry.Salience
+//@   nopanic
+//@   modifies @evlog
+//@   ensures delivered(g, old($evN), 3, cycle) && logKept(old($evN))
+//@   ensures forall k int :: 0 <= k && k < len(g.Listeners) ==> $evEntry[old($evN)+k] == entry
+//@   ghost_exit $execNotifStamp = $stamp
+//@   ghost_exit $execNotifEntry = entry
+//@   ghost_exit $sinceNilCheck = $sinceNilCheck + 1
+//@   ghost_exit $sinceExec = $sinceExec + 1
+//@   invariant@1 $evN == old($evN) + $i && logKept(old($evN))
+//@   invariant@1 forall k int :: 0 <= k && k < $i ==> $evL[old($evN)+k] == g.Listeners[k] && $evKind[old($evN)+k] == 3 && $evCycle[old($evN)+k] == cycle && $evEntry[old($evN)+k] == entry
+
+// ---------------------------------------------------------------------------------------------------------
+// ExecuteWithContext
+// ---------------------------------------------------------------------------------------------------------
+//@ macro func ghostWF() bool { return (forall re Ref :: $evalStamp[re] <= $stamp && $notifStamp[re] <= $stamp) && $execNotifStamp <= $stamp && $execStamp <= $stamp }
+//@ macro func candNow(re *ast.RuleEntry) bool { return $evalStamp[re] == $stamp && $evalCand[re] }
+//@ macro func RE(kb *ast.KnowledgeBase, k string) *ast.RuleEntry { return kb.RuleEntries[k] }
+
+//@ func (g *GruleEngine) ExecuteWithContext(ctx, dataCtx, knowledge) (err)
+//@   serves C03 C06 C08 C10 C14 C15 C01 C02
+//@   opt alloc=1
+//@   requires wfEngine(g) && ctx != nil
+//@   requires 0 <= g.MaxCycle && g.MaxCycle < MaxUint64
+//@   requires knowledge != nil ==> knowledge.WorkingMemory != nil && KBInv(knowledge) && WMInv(knowledge.WorkingMemory)
+//@   requires ghostWF()
+//@   nopanic
+//@   modifies *, @ctxghost, @evlog, $complete, $loc, $stamp, $runBegin, $runExec, $evalStamp, $evalCnt, $evalCand, $notifStamp, $execNotifStamp, $execNotifEntry, $execStamp, $actionFailed, $evalFailed, $addFailed, $sinceExec
+//@   ghost_entry $stamp = $stamp + 1
+//@   ghost_entry $runBegin = 0
+//@   ghost_entry $runExec = 0
+//@   ghost_entry $ctxErrSeen = false
+//@   ghost_entry $actionFailed = false
+//@   ghost_entry $evalFailed = false
+//@   ghost_entry $addFailed = false
+// C06: at most MaxCycle firings
+//@   ensures[C06] budget: $runExec <= g.MaxCycle
+// C06 / C02: nil only at quiescence (every active rule evaluated and reported once in the final cycle, none a candidate) or after Complete
+//@   ensures[C06,C02] quiescent: err == nil && !$complete[dataCtx] ==> (forall re *ast.RuleEntry :: !candNow(re))
+//@        && (forall k string :: has(knowledge.RuleEntries, k) && active(RE(knowledge, k)) ==> $evalStamp[RE(knowledge, k)] == $stamp && $evalCnt[RE(knowledge, k)] == 1 && $notifStamp[RE(knowledge, k)] == $stamp)
+// C06: an error that is neither a cancellation, an action failure, a (flagged) evaluation failure nor a bad argument is the cycle-limit error,
+// and it is returned exactly when the budget is used up and one more firing would be needed
+//@   ensures[C06] limit: err != nil && knowledge != nil && dataCtx != nil && !$addFailed && !$ctxErrSeen && !$actionFailed && !($evalFailed && g.ReturnErrOnFailedRuleEvaluation)
+//@        ==> $runExec == g.MaxCycle && (exists re *ast.RuleEntry :: candNow(re))
+// C10: after Complete the run ends with nil right after that firing: no evaluation, notification or firing in between
+//@   ensures[C10] complete: err == nil && $runExec > 0 && $complete[dataCtx] ==> $sinceExec == 0
+// C14: action failure -> error naming the rule; flagged evaluation failure -> error
+//@   ensures[C14] actionerr: $actionFailed ==> err != nil && err_mentions(err, $execNotifEntry.RuleName)
+//@   ensures[C14] evalerr: $evalFailed && g.ReturnErrOnFailedRuleEvaluation ==> err != nil
+// C15: an already cancelled context fires nothing; every observed cancellation reaches the caller
+//@   ensures[C15] precancelled: old($cancelled) && knowledge != nil && dataCtx != nil && !$addFailed ==> wrapsCtx(err, ctx) && $runExec == 0
+//@   ensures[C15,C02] ctxseen: $ctxErrSeen ==> wrapsCtx(err, ctx)
+//
+// outer loop `for {`
+//@   invariant@1[C06] counters: cycle == $runExec && cycle == $runBegin && cycle <= g.MaxCycle
+//@   invariant@1 ghostwf: ghostWF()
+//@   invariant@1[C08] fresh: $runBegin == 0 ==> memoClear(knowledge.WorkingMemory) && noneRetracted(knowledge) && knowledge.DataContext == dataCtx
+//@   invariant@1 notcomplete: $runExec > 0 ==> !$complete[dataCtx]
+//@   invariant@1 nofail: !$actionFailed && !($evalFailed && g.ReturnErrOnFailedRuleEvaluation) && !$addFailed
+//@   invariant@1 kb: knowledge != nil && dataCtx != nil && knowledge.WorkingMemory != nil && KBInv(knowledge)
+//@   invariant@1[C15] cancel: old($cancelled) ==> $runExec == 0 && $cancelled
+//@   decreases@1 g.MaxCycle + 1 - cycle
+// evaluation loop `for _, ruleEntry := range knowledge.RuleEntries`
+//@   invariant@2 runnable: forall k int :: 0 <= k && k < len(runnable) ==> runnable[k] != nil && candNow(runnable[k]) && $notifStamp[runnable[k]] == $stamp && active(runnable[k])
+//@   invariant@2 allcands: forall re *ast.RuleEntry :: candNow(re) ==> (exists k int :: 0 <= k && k < len(runnable) && runnable[k] == re)
+//@   invariant@2 done: forall j int :: 0 <= j && j < $i && active(RE(knowledge, $keys[j])) ==> $evalStamp[RE(knowledge, $keys[j])] == $stamp && $evalCnt[RE(knowledge, $keys[j])] == 1 && $notifStamp[RE(knowledge, $keys[j])] == $stamp
+//@   invariant@2 todo: forall j int :: $i <= j && j < $n ==> $evalStamp[RE(knowledge, $keys[j])] != $stamp && $notifStamp[RE(knowledge, $keys[j])] != $stamp
+//@   invariant@2 ghostwf: forall re Ref :: $evalStamp[re] <= $stamp && $notifStamp[re] <= $stamp
+//@   invariant@2 nofail: !($evalFailed && g.ReturnErrOnFailedRuleEvaluation)
+//@   invariant@2[C15] cancel: old($cancelled) ==> $cancelled
+// selection scan `for idx, pr := range runnable`
+//@   invariant@3 runner: runner != nil && candNow(runner) && $notifStamp[runner] == $stamp && active(runner)
+//@   invariant@3 first: $i == 0 ==> runner == runnable[0]
+//@   invariant@3 maximal: forall k int :: 0 <= k && k < $i ==> runnable[k].Salience <= runner.Salience
